@@ -210,4 +210,113 @@ theorem py_canon_registered_or_fresh (reg : List CKey) (pfx : String) (id : Nat)
     rw [regOf_contains reg id, b k hk]; rfl
   · right; rw [regOf_contains reg id]; exact c
 
+/-! ### `StrandS.identifiers` -/
+
+/-- the outcome that stands for an exception of the source (inverse of `errOfOut` on what `identifiers` raises) -/
+def outOfErr : Err → Out
+  | .secondaryStructure => .ssErr
+  | .objectInit => .objectInitErr
+  | .singleton e => .singletonErr e
+  | .notImplemented => .notImplemented
+  | .assertion => .assertion
+  | .pilFormat => .fault "PilFormatError"
+  | .parse => .fault "ParseException"
+  | .fault k => .fault k
+
+/-- **`StrandS.identifiers` as written in the source, in closed form**, for every argument: ObjectInitError without sequence
+    and name; NotImplementedError for a sequence that contains `+`; else the canonical form is the sequence with a structure of
+    `*`, the name as given or `prefix`/`PREFIX` + `ID`, and `newargs = {'canon': canon, 'turns': 0}` -/
+theorem py_StrandS_identifiers_eq (pfx : String) (id : Nat) (seq : Option (List String)) (name pre : Option String) :
+    py_StrandS_identifiers pfx id seq name pre =
+      match seq with
+      | none => (match name with | none => .error .objectInit | some n => .ok (none, some n, none))
+      | some sequence =>
+        if sequence.contains "+" then .error .notImplemented
+        else
+          let canon : CKey := (sequence, (List.range sequence.length).map (fun _ => '*'))
+          .ok (some canon, some (match name with | some n => n | none => (match pre with | none => pfx | some p => p) ++ toString id),
+               some (some canon, 0)) := by
+  cases seq with
+  | none => cases name <;> rfl
+  | some sequence =>
+    simp only [py_StrandS_identifiers, bind, Except.bind, pure, Except.pure]
+    by_cases h : sequence.contains "+" = true
+    · simp only [h, ↓reduceIte]; rfl
+    · simp only [h, Bool.false_eq_true, ↓reduceIte]
+      cases name <;> cases pre <;> rfl
+
+/-- **the model's `StrandS(sequence, name, prefix)` IS `Singleton.__call__` on what the source's `StrandS.identifiers`
+    returns**: the identifiers part of `strandRequestFull` (Model/ComplexFull.lean) is the translated method, for every registry
+    and every argument; `StrandS.__init__` registers nothing itself and consumes `ID` iff no name was given -/
+theorem strandRequestFull_eq_py (pfx : String) (r : Reg CKey) (fresh : Nat) (seq : Option (List String)) (name pre : Option String) :
+    strandRequestFull pfx r fresh seq name pre =
+      match py_StrandS_identifiers pfx r.autoId seq name pre with
+      | .error e => (r, outOfErr e)
+      | .ok (canon, nm, _) => r.callFull canon (nm.getD "") fresh [] name.isNone := by
+  rw [py_StrandS_identifiers_eq]
+  unfold strandRequestFull
+  cases seq with
+  | none => cases name <;> rfl
+  | some sequence =>
+    simp only
+    by_cases h : sequence.contains "+" = true
+    · simp only [h, ↓reduceIte]; rfl
+    · simp only [h, Bool.false_eq_true, ↓reduceIte]
+      cases name <;> rfl
+
+/-- hence `C02.strandRequestFull_eq` as a statement about the source's method: requesting a strand is `strandRequest` of the
+    net-effect model with the canonical form the source computes (for every name but the empty string) -/
+theorem py_strand_request (pfx : String) (r : Reg CKey) (fresh : Nat) (seq : Option (List String)) (name pre : Option String)
+    (hname : name ≠ some "") :
+    (match py_StrandS_identifiers pfx r.autoId seq name pre with
+      | .error e => (r, outOfErr e)
+      | .ok (canon, nm, _) => r.callFull canon (nm.getD "") fresh [] name.isNone) =
+    strandRequest (pre.getD pfx) r fresh seq name := by
+  rw [← strandRequestFull_eq_py]; exact C02.strandRequestFull_eq pfx r fresh seq name pre hname
+
+/-- the canonical form of a strand determines its sequence: two sequences get the same canonical form iff they are equal -/
+theorem py_strand_canon_inj (pfx pfx' : String) (id id' : Nat) (s s' : List String) (name pre name' pre' : Option String)
+    (res res' : Option CKey × Option String × Option (Option CKey × Nat))
+    (h : py_StrandS_identifiers pfx id (some s) name pre = .ok res)
+    (h' : py_StrandS_identifiers pfx' id' (some s') name' pre' = .ok res') :
+    res.1 = res'.1 ↔ s = s' := by
+  rw [py_StrandS_identifiers_eq] at h h'
+  simp only at h h'
+  split at h
+  · cases h
+  · split at h'
+    · cases h'
+    · injection h with h; injection h' with h'
+      subst h; subst h'
+      constructor
+      · intro e; injection e with e; exact congrArg Prod.fst e
+      · intro e; subst e; rfl
+
+theorem py_StrandS_identifiers_examples :
+    py_StrandS_identifiers "s" 3 (some ["a", "b"]) none (some "q") = .ok (some (["a", "b"], ['*', '*']), some "q3", some (some (["a", "b"], ['*', '*']), 0)) ∧
+    py_StrandS_identifiers "s" 3 (some ["a", "+", "b"]) none none = .error .notImplemented ∧
+    py_StrandS_identifiers "s" 3 none none none = .error .objectInit ∧
+    py_StrandS_identifiers "s" 3 none (some "x") none = .ok (none, some "x", none) := ⟨rfl, rfl, rfl, rfl⟩
+
 end Dsd.PyIdent
+
+#print axioms Dsd.PyIdent.py_ComplexS_identifiers_eq
+#print axioms Dsd.PyIdent.py_ComplexS_identifiers_eq_regKeys
+#print axioms Dsd.PyIdent.py_ComplexS_identifiers_eq_all
+#print axioms Dsd.PyIdent.py_ComplexS_identifiers_net
+#print axioms Dsd.PyIdent.py_ComplexS_identifiers_none
+#print axioms Dsd.PyIdent.py_ComplexS_identifiers_raises
+#print axioms Dsd.PyIdent.py_ComplexS_identifiers_examples
+#print axioms Dsd.PyIdent.py_identifiers_total
+#print axioms Dsd.PyIdent.py_canon_mem_min
+#print axioms Dsd.PyIdent.py_canon_rot_invariant
+#print axioms Dsd.PyIdent.py_turns_correct
+#print axioms Dsd.PyIdent.py_canon_eq_iff
+#print axioms Dsd.PyIdent.py_canon_registered_or_fresh
+#print axioms Dsd.PyIdent.py_StrandS_identifiers_eq
+#print axioms Dsd.PyIdent.strandRequestFull_eq_py
+#print axioms Dsd.PyIdent.py_strand_request
+#print axioms Dsd.PyIdent.py_strand_canon_inj
+#print axioms Dsd.PyIdent.py_StrandS_identifiers_examples
+#print axioms Dsd.PyIdent.ckeyLt_eq
+#print axioms Dsd.PyIdent.sortedBy_eq
